@@ -1,5 +1,6 @@
 //! Shared helpers for the correspondence harness: deterministic PRNG, JSON output.
 pub mod stores;
+pub mod limh;
 use std::fmt::Write as _;
 
 /// splitmix64: every random choice of a run derives from one seed.
